@@ -274,7 +274,7 @@ func lemmaExplicitRevision(oldv, ver int32) bool                     { return tr
 //@   requires bktOK(bkt) && ki != nil && v != nil && noCollisionFor(bkt, ki) && treePosOK(bkt.htree) && Conf != nil && len(ki.Key) <= 255 && len(v.Body) < 1<<31-400
 //@   requires v.Ver > -2147483648 && treeVerOf(bkt, ki.KeyHash) > -2147483647 && treeVerOf(bkt, ki.KeyHash) < 2147483647
 //@   requires v.Ver < 0 ==> v.Addr == 0 && v.Cap == 0     // a delete request carries no counted value buffer
-//@   modifies *
+//@   modifies elems(ghostLogHas[bkt.datas]), all(v), bkt.NumSameVhash, bkt.SizeSameVhash, bkt.SizeVhashKey, ghostSpawn(), ghostFail(), ghostClock(), cmem.DBRL.SetData.Size, cmem.DBRL.SetData.MaxSize, cmem.DBRL.SetData.Count, cmem.DBRL.SetData.MaxCount, cmem.DBRL.FlushData.Size, cmem.DBRL.FlushData.MaxSize, cmem.DBRL.FlushData.Count, cmem.DBRL.FlushData.MaxCount, cmem.DBRL.GetData.Size, cmem.DBRL.GetData.MaxSize, cmem.DBRL.GetData.Count, cmem.DBRL.GetData.MaxCount, cmem.AllocRL.Size, cmem.AllocRL.MaxSize, cmem.AllocRL.Count, cmem.AllocRL.MaxCount, elems(ghostTreeHas[bkt.htree]), elems(ghostTreeVer[bkt.htree]), elems(ghostTreeVhash[bkt.htree]), elems(ghostTreeChunk[bkt.htree]), elems(ghostTreeOff[bkt.htree])
 //@   ensures old(v.Ver) >= 0 ==> cmem.DBRL.SetData.Count == old(cmem.DBRL.SetData.Count)-1      // C12: the counted value leaves SetData on every path
 //@   ensures old(v.Ver) < 0 ==> cmem.DBRL.SetData.Count == old(cmem.DBRL.SetData.Count)
 //@   ensures cmem.DBRL.GetData.Count == old(cmem.DBRL.GetData.Count) && cmem.DBRL.GetData.Size == old(cmem.DBRL.GetData.Size)
@@ -328,3 +328,19 @@ func readyBucketOK(store *HStore, ki *KeyInfo) bool {
 //@   requires ki != nil && !ki.KeyIsPath && storeOK(store) && readyBucketOK(store, ki) && len(ki.Key) <= 255
 //@   modifies *
 //@   ensures cmem.DBRL.GetData.Count == old(cmem.DBRL.GetData.Count) && cmem.DBRL.GetData.Size == old(cmem.DBRL.GetData.Size)
+
+// Set: same gate as Get/Incr (C15); C12: the value buffer counted by the caller (p.Ver >= 0) leaves
+// SetData on every path - also when the bucket is not served here - and a delete (p.Ver < 0, never
+// counted) leaves the counter alone.
+//@ func (store *HStore) Set
+//@   props C15 C12 C01
+//@   ints bv
+//@   timeout 30
+//@   opaque treePosOK noCollisionForHash QlzD QlzVhash QlzValid
+//@   requires ki != nil && !ki.KeyIsPath && p != nil && storeOK(store) && readyBucketOK(store, ki) && len(ki.Key) <= 255 && len(p.Body) < 1<<31-400
+//@   requires p.Ver > -2147483648 && (p.Ver < 0 ==> p.Addr == 0 && p.Cap == 0)
+//@   requires store.buckets[kiBucket(ki)].State == BUCKET_STAT_READY ==> treeVerOf(store.buckets[kiBucket(ki)], kiHash(ki)) > -2147483647 && treeVerOf(store.buckets[kiBucket(ki)], kiHash(ki)) < 2147483647
+//@   modifies *
+//@   ensures ki.KeyHash == kiHash(ki) && ki.BucketID == kiBucket(ki)
+//@   ensures old(p.Ver) >= 0 ==> cmem.DBRL.SetData.Count == old(cmem.DBRL.SetData.Count)-1
+//@   ensures old(p.Ver) < 0 ==> cmem.DBRL.SetData.Count == old(cmem.DBRL.SetData.Count)
